@@ -826,3 +826,36 @@ func (cs *Contracts) lookupExtern(key, callerPkg string) (*FuncContract, string)
 	}
 	return nil, ""
 }
+
+// ghostClosure: every ghost named (transitively) together with `name` by the ghostgroup items
+// (a `ghostgroup[lead]` only expands from its first member).
+func (cs *Contracts) ghostClosure(name string) []string {
+	seen := map[string]bool{name: true}
+	order := []string{name}
+	for i := 0; i < len(order); i++ {
+		cur := order[i]
+		for _, grp := range cs.GhostGroups {
+			in := false
+			if len(grp) > 1 && grp[0] == "<lead>" {
+				in = grp[1] == cur
+				grp = grp[1:]
+			} else {
+				for _, n := range grp {
+					if n == cur {
+						in = true
+					}
+				}
+			}
+			if !in {
+				continue
+			}
+			for _, n := range grp {
+				if !seen[n] {
+					seen[n] = true
+					order = append(order, n)
+				}
+			}
+		}
+	}
+	return order
+}
